@@ -1295,6 +1295,8 @@ def compare_case(w, rec, reply, want_opt) -> list[str]:
         if reply.get("err") != real:
             return [f"exception outcome differs: real={real} model={reply.get('err')}"]
         return []
+    if not reply.get("wf", False):
+        dis.append("extracted instance violates the theorems' well-formedness hypotheses (Inst.wf = false)")
     dis += diff_models(canon_gurobi(rec["model"]), canon_lean(reply))
     real = real_decisions(w, rec)
     if rec["solved"]:
